@@ -115,6 +115,8 @@ where
         if n == 1 {
             self[0].clone()
         } else {
+            #[cfg(rust_ndarray_ndarray_stats_verif)]
+            let thread_rng = crate::verif_hooks::thread_rng;
             let mut rng = thread_rng();
             let pivot_index = rng.gen_range(0..n);
             let partition_index = self.partition_mut(pivot_index);
@@ -250,6 +252,8 @@ fn _get_many_from_sorted_mut_unchecked<A>(
     }
 
     // We pick a random pivot index: the corresponding element is the pivot value
+    #[cfg(rust_ndarray_ndarray_stats_verif)]
+    let thread_rng = crate::verif_hooks::thread_rng;
     let mut rng = thread_rng();
     let pivot_index = rng.gen_range(0..n);
 
@@ -295,4 +299,17 @@ fn _get_many_from_sorted_mut_unchecked<A>(
         bigger_indexes,
         bigger_values,
     );
+}
+
+/// Verification hook: crate-external access to `get_many_from_sorted_mut_unchecked`.
+#[cfg(rust_ndarray_ndarray_stats_verif)]
+pub fn verif_get_many_from_sorted_mut_unchecked<A, S>(
+    array: &mut ArrayBase<S, Ix1>,
+    indexes: &[usize],
+) -> IndexMap<usize, A>
+where
+    A: Ord + Clone,
+    S: DataMut<Elem = A>,
+{
+    get_many_from_sorted_mut_unchecked(array, indexes)
 }
